@@ -91,10 +91,17 @@ func (r *Runner) exec(toks []string) (string, bool) {
 		for i := 1; i+1 < len(toks); i += 2 {
 			cs = append(cs, govChange(toks[i], toks[i+1]))
 		}
-		res, _ := e.Gov(cs)
+		before := e.RawDump()
+		res, em := e.Gov(cs)
 		line := strings.Join(toks, " ")
 		r.emitOp(line)
-		r.emitObs("V", res, e.Observe(), sdk.Events{}, nil, "")
+		r.stats["gov."+res]++
+		if res == ResOK {
+			r.emitObs("V", res, e.Observe(), sdk.Events{}, nil, "")
+		} else {
+			same := before == e.RawDump()
+			r.emitObs("V", res, nil, nil, &same, em)
+		}
 		return line, false
 	case "T":
 		before := e.RawDump()
